@@ -664,6 +664,9 @@ func garbageOracleRes(r Res) string {
 		if r.N <= 0 {
 			return "Read returned a package with consumed length 0 (the transport loop spins)"
 		}
+		if r.M != nil && !r.M.BodyOK {
+			return "the delivered body is not what the codec decodes from the bytes of this frame (head length .. total length): it depends on bytes outside the frame"
+		}
 	case "need":
 		if r.Stall {
 			return "Read answered 'need more data' although a complete frame is at the head of the buffer: the frame is neither delivered nor rejected, the transport loop waits for ever"
@@ -690,6 +693,10 @@ func garbageOracleEvs(evs []Ev) string {
 			return "Read hung inside the receive loop"
 		case "spin":
 			return "a package with consumed length 0 was delivered: the transport loop spins"
+		case "deliver":
+			if e.M != nil && !e.M.BodyOK {
+				return "a delivered body is not what the codec decodes from the bytes of its own frame (head length .. total length): it depends on bytes outside the frame, i.e. on where the stream is cut"
+			}
 		case "stall":
 			return "'need more data' with a complete frame at the head of the buffer: neither delivered nor rejected, every later frame of the connection is stuck behind it"
 		}
@@ -1194,6 +1201,55 @@ func Run(a map[string]string) {
 				parts2 = append(parts2, randomPartition(r, len(d2)))
 			}
 			res.Drives = append(res.Drives, driveCaseBad("stream+undecodable", d2, parts2, w2, false, bad))
+		}
+
+		// (3b') a frame whose body is SHORTER than what its codec reads (a peer that omits trailing
+		// fields): the body cut at a random point, the total length adjusted, further frames behind it.
+		// Its delivery is what the codec makes of exactly these bytes, wherever the stream is cut.
+		if len(frames) >= 2 {
+			var cand []int
+			p := 0
+			for j, f := range frames {
+				hl := int(uint16(data[p+7])<<8 | uint16(data[p+8]))
+				if j < len(frames)-1 && f-hl >= 4 && data[p+9] != 3 && data[p+9] != 4 {
+					cand = append(cand, j)
+				}
+				p += f
+			}
+			if len(cand) > 0 {
+				j := cand[r.Intn(len(cand))]
+				var d3 []byte
+				var w3 []Msg
+				var cuts []int
+				p = 0
+				for x, f := range frames {
+					fr := append([]byte{}, data[p:p+f]...)
+					w := want[x]
+					if x == j {
+						hl := int(uint16(fr[7])<<8 | uint16(fr[8]))
+						drop := 1 + r.Intn(f-hl-2) // at least the type code stays
+						fr = fr[:f-drop]
+						t := uint32(len(fr))
+						fr[3], fr[4], fr[5], fr[6] = byte(t>>24), byte(t>>16), byte(t>>8), byte(t)
+						w.Body = hx(fr[hl:])
+					}
+					d3 = append(d3, fr...)
+					w3 = append(w3, w)
+					cuts = append(cuts, len(d3))
+					p += f
+				}
+				parts3 := [][]int{{}}
+				for _, c := range cuts {
+					if c < len(d3) {
+						parts3 = append(parts3, []int{c}, []int{c + 1}, []int{c + 3})
+					}
+				}
+				for x := 0; x < 4; x++ {
+					parts3 = append(parts3, randomPartition(r, len(d3)))
+				}
+				res.Reads = append(res.Reads, readCase("shortbody+rest", d3, nil))
+				res.Drives = append(res.Drives, driveCase("stream+shortbody", d3, parts3, w3, true))
+			}
 		}
 
 		// (3c) two connections on one handler: A receives this stream but stops mid-frame, B receives
